@@ -34,6 +34,15 @@ CHECKS = {
         "to a real Terminal, and TLC judges the recorded run (per-burst tracker monitor + summary clauses).",
         "Payload/CRC-32 byte equality is computed by the harness with the library's CRC32 (C05) and judged as booleans by TLC; N<=127; header built by the harness from the spec's N/pad.",
     ),
+    "C17": (
+        "DESIGN.md 5/C17",
+        "TLC exhaustive bounded model of the HSTRP/RRS handler + liveness check of two handlers in a loop (HSTRPHandler.tla) + transition tours and closed loops on real handlers + TLC trace validation",
+        "TLC explores every datagram history over 19 message classes to a depth bound against the property monitor, and checks "
+        "'two handlers cannot ping-pong' as a temporal property (weak fairness, no state constraint) on two handler models wired "
+        "back to back; every explored edge is replayed on a real RRSDatagramProtocol with a recording transport, two real handlers "
+        "are wired back to back, and random histories with truncated/bit-flipped datagrams are recorded; TLC judges every step.",
+        "Sent datagrams are classified structurally by the harness; damaged datagrams are judged only on never-raises and heartbeat clauses; periodic_maintenance (timer coroutine) not modelled.",
+    ),
 }
 
 NOT_YET = {}
